@@ -100,7 +100,12 @@ impl<'r> G<'r> {
             let ty = if ty == Ty::Code || ty == Ty::Dag { Ty::Int } else { ty };
             self.put(&ty.render());
             self.put(" ");
-            let name = self.fresh("p");
+            let name = self.shadow_name("p", 0);
+            if self.shadowed_globals.contains(&name) {
+                // from here to the end of the class statement the global of that name is not to be used where the
+                // template argument itself is out of sight (defaults, record-body defvar values)
+                self.masked.push(name.clone());
+            }
             let d = self.decl_here(&name, DeclKind::TemplateArg, vec![ty.render(), name.clone()], None, false);
             let has_default = if scattered { self.rng.chance(1, 2) } else { i >= first_default };
             if has_default {
@@ -198,7 +203,11 @@ impl<'r> G<'r> {
                     let ty = self.random_type(true);
                     self.put_type(&ty);
                     self.put(" ");
-                    let name = self.fresh("f");
+                    let name = if self.rec.as_ref().map(|r| r.is_class).unwrap_or(false) { self.shadow_name("f", 1) } else { self.fresh("f") };
+                    if self.shadowed_globals.contains(&name) && !self.masked.contains(&name) {
+                        // the field's own initialiser would already mean the field, not the global
+                        self.masked.push(name.clone());
+                    }
                     let owner = self.rec.as_ref().map(|_| String::new()).unwrap_or_default();
                     let _ = owner;
                     let d = self.decl_here(&name, DeclKind::Field, vec![ty.render(), name.clone()], doc, checked);
@@ -309,10 +318,13 @@ impl<'r> G<'r> {
         let shadow = !outer.is_empty() && self.rng.chance(1, 5) && !self.scopes.is_empty();
         let name = if shadow {
             let n = outer[self.rng.below(outer.len())].clone();
-            if self.scopes.last().map(|s| s.iter().any(|v| v.name == n)).unwrap_or(false) || self.loop_vars.contains(&n) {
+            // (never a name that a field / template argument also reuses: llvm-tblgen 14 looks fields and template
+            // arguments up before block variables, the statement says the innermost declaration wins)
+            if self.scopes.last().map(|s| s.iter().any(|v| v.name == n)).unwrap_or(false) || self.loop_vars.contains(&n) || self.shadowed_globals.contains(&n) {
                 self.fresh("v")
             } else {
                 self.p.features.push("scope:shadowing-defvar");
+                self.shadowed_globals.insert(n.clone());
                 n
             }
         } else {
@@ -327,7 +339,15 @@ impl<'r> G<'r> {
         // llvm-tblgen 14 parses a record-body defvar's value without the current record: fields and template
         // arguments are not visible there
         let saved_rec = self.rec.take();
+        let n_masked = self.masked.len();
+        if let Some(r) = &saved_rec {
+            // ... so a global that shares its name with one of them would be what llvm-tblgen finds, while "fields
+            // inside their record" says otherwise: such names are not used here at all
+            let names: Vec<String> = r.fields.iter().map(|f| f.name.clone()).chain(r.targs.iter().map(|a| a.name.clone())).collect();
+            self.masked.extend(names);
+        }
         self.value(&ty, 0, "defvar-value");
+        self.masked.truncate(n_masked);
         self.rec = saved_rec;
         self.put(";");
         let context = self.context();
@@ -377,6 +397,7 @@ impl<'r> G<'r> {
         children.extend(field_children);
         self.outline_push(OutlineNode { name: name.clone(), kind: "Class", range, children });
         self.classes.push(ClassInfo { name, decl: d, targs, fields: rec.fields, ancestors: anc });
+        self.masked.clear();
         self.p.features.push("stmt:class");
         self.end_stmt();
     }
